@@ -10,7 +10,11 @@ one() { s=$1; prop=$2
   first=$(echo "$out" | grep "^VIOLATION" | grep -v "no-failing-input-found" | head -1 | sed 's/.*replay=.*\/out\/[^/]*\///'); [ -z "$first" ] && first=$(echo "$out" | grep "^VIOLATION" | head -1 | sed 's/.*replay=.*\/out\/[^/]*\///')
   echo "$s check=$prop rc=$rc violations=$nv replayed=$nr first=$first :: $(echo "$out" | grep -E "^C[0-9]+:" | tail -1 | cut -c1-100)"
 }
+# optional arguments: the property ids to sweep (default: all). Different properties can be swept concurrently (they use different out/<id> dirs),
+# except that the ALSO checks write into the other property's out dir: keep C02/C05/C01 and C11/C02, C08/C20, C04/C18 in the same group.
+ONLY=" $* "
 for d in seeded/*/; do s=$(basename $d); [ -f $d/patch.diff ] || continue; prop=${s%%_*}
+  [ $# -gt 0 ] && [[ "$ONLY" != *" $prop "* ]] && continue
   one $s $prop
   [ -n "${ALSO[$s]}" ] && one $s ${ALSO[$s]}
 done
